@@ -407,7 +407,7 @@ MUTANTS = [
     ("upload-direction", POOL, "            shutil.copy(cache_path, pool_path)", "            shutil.copy(pool_path, cache_path)", "2d"),
     ("shared-lock", POOL, "fcntl.lockf(fd, fcntl.LOCK_EX | fcntl.LOCK_NB)", "fcntl.lockf(fd, fcntl.LOCK_SH | fcntl.LOCK_NB)", "5t"),
     ("nested-lock-in-compare", POOL, "            remote_hash = crypto.hash_file(pool_path, 1048576, \"md5\")", "            with image_lock(pool_path, 300) as lock:\n                remote_hash = crypto.hash_file(pool_path, 1048576, \"md5\")", "7"),
-    ("shallow-compare", POOL, "        return local_hash == remote_hash\n\n    @staticmethod\n    def compare_remote", "        return os.path.getsize(cache_path) == os.path.getsize(pool_path)\n\n    @staticmethod\n    def compare_remote", "2f"),
+    ("shallow-compare", POOL, "        return local_hash == remote_hash\n\n    @staticmethod\n    def download_local", "        return os.path.getsize(cache_path) == os.path.getsize(pool_path)\n\n    @staticmethod\n    def download_local", "2f"),
     ("skip-locks-on", POOL, "SKIP_LOCKS = False", "SKIP_LOCKS = True", "6"),
     ("swallow-all-errors", POOL, "                if error.errno != errno.EACCES and error.errno != errno.EAGAIN:\n                    raise", "                if error.errno != errno.EACCES and error.errno != errno.EAGAIN:\n                    break", "5t"),
     ("P-with-as-unused", POOL, "        with image_lock(pool_path, update_timeout) as lock:\n            os.unlink(pool_path)", "        with image_lock(pool_path, update_timeout):\n            os.unlink(pool_path)", None),
